@@ -1285,15 +1285,22 @@ where
 /// happens to run (a reader's fallback load that was helped, a writer's store, a guard drop).
 /// Every call is wrapped in catch_unwind; afterwards counts must be exact and slots empty.
 pub fn panic_dtor<S: Strat>(fill: bool, two_writers: bool) {
-    panic_dtor_g::<S>(fill, two_writers, false)
+    panic_dtor_g::<S>(fill, two_writers, false, false)
 }
 
 /// `own_guards`: the reader's fast slots are occupied by guards of the container under test
 /// itself (debts on the value that gets replaced), not of the filler.
-pub fn panic_dtor_g<S: Strat>(fill: bool, two_writers: bool, own_guards: bool) {
+///
+/// `cas`: the first writer does `compare_and_swap(raw pointer of #1 => #11)` instead of a store:
+/// the caller owns no reference of the current value, so the guard inside compare_and_swap can
+/// be its last owner (its destructor then runs, and panics, at the end of a lost round), and a
+/// successful exchange is followed by the same debt walk as a store.
+pub fn panic_dtor_g<S: Strat>(fill: bool, two_writers: bool, own_guards: bool, cas: bool) {
     world::set_extra_tag(",C18");
     rt::set_context_tag("C18");
-    let c = Cont::<S>::new(0, V::new(1));
+    let v1 = V::new(1);
+    let raw1 = <V as arc_swap::RefCnt>::as_ptr(&v1) as *const <V as arc_swap::RefCnt>::Base;
+    let c = Cont::<S>::new(0, v1);
     let fil = filler::<S>();
     // which value's destructor panics is part of the enumeration: the initial value, or (with two
     // writers) the value the first writer stores, which may die as an unneeded helper replacement
@@ -1365,7 +1372,14 @@ pub fn panic_dtor_g<S: Strat>(fill: bool, two_writers: bool, own_guards: bool) {
             }
             let h = prologue(&fil, false);
             rt::quiet(|| rt::barrier(n));
-            guarded(&mut || c.sw.store(V::new(11 + 10 * wi)));
+            if cas && wi == 0 {
+                guarded(&mut || {
+                    let old = c.sw.compare_and_swap(raw1, V::new(11));
+                    drop(old);
+                });
+            } else {
+                guarded(&mut || c.sw.store(V::new(11 + 10 * wi)));
+            }
             rt::call_boundary();
             release(h);
         }));
@@ -2045,7 +2059,14 @@ where
             rt::quiet(|| rt::barrier(3));
             let b = begin("swap", "C09", WRITE_CAP);
             let x = c.swap(None);
-            opt_rec(b, world::Kind::Swap, 0, 0, opt_label(&x));
+            let lx = opt_label(&x);
+            opt_rec(b, world::Kind::Swap, 0, 0, lx);
+            // The value the readers race for dies as early as it can (a handle kept until the end
+            // would hide a reader that got it without protection).
+            if let Some(v) = x.as_ref() {
+                use_value(v, lx, "swap result of an optional container");
+            }
+            drop(x);
             rt::call_boundary();
             let b = begin("swap", "C09", WRITE_CAP);
             let y = c.swap(Some(V::new(11)));
@@ -2056,7 +2077,7 @@ where
             opt_rec(b, world::Kind::Swap, 0, 0, opt_label(&z));
             rt::call_boundary();
             release(h);
-            vec![x, y, z]
+            vec![y, z]
         })
     };
     let t = {
